@@ -350,7 +350,12 @@ func caseC10(t TB, prog *Program) {
 					// Flush takes the object to write from the caller
 					obj, err := e.db.Get(d)
 					if err == nil {
-						if err := e.db.Flush(obj); err != nil {
+						if op.Ref%2 == 1 {
+							if err := e.db.FlushAndCommit(obj); err != nil {
+								e.failf("%s: FlushAndCommit: %v", where, err)
+							}
+							e.flag("flush-and-commit-one")
+						} else if err := e.db.Flush(obj); err != nil {
 							e.failf("%s: Flush: %v", where, err)
 						}
 						w := WalkDir(e.collDir())
